@@ -698,9 +698,7 @@ def builtin(I, name, args, kwargs, node, env):
                     return xs[0] if name == "max" else xs[1]
                 if poss <= {"-", "0"}:
                     return xs[1] if name == "max" else xs[0]
-            srt = sorted(xs, key=repr)
-            pos = all(I_.manifest_sign(x) == {"+"} for x in xs)
-            return alg.fn(name, *srt, pos=pos)
+            return (alg.fmax if name == "max" else alg.fmin)(*xs)
         return Unknown(name)
     if name == "abs":
         return map_unary(I, _abs, args[0], node)
